@@ -78,6 +78,10 @@ CATALOGS = {
                                       {'name': 'pred4', 'integration_name': 'proj', 'to_predict': ['target_xz', 'other']}]),
     'legacy-dict': dict(integrations=['int1', 'int2'], predictor_namespace='mindsdb',
                         predictor_metadata={'pred': {}, 'pred2': {'integration_name': 'proj', 'to_predict': ['y']}}),
+    'legacy-dict-targets': dict(integrations=['int1', 'int2'], predictor_namespace='mindsdb',
+                                predictor_metadata={'pred': {}, 'pred2': {'integration_name': 'proj', 'to_predict': ['y']},
+                                                    'pred3': {'integration_name': 'proj', 'to_predict': 'target_xz'},
+                                                    'pred4': {'integration_name': 'proj', 'to_predict': ['target_xz', 'other']}}),
     'no-default': dict(integrations=['int1', 'int2'],
                        predictor_metadata=[{'name': 'pred', 'integration_name': 'mindsdb'},
                                            {'name': 'pred2', 'integration_name': 'proj'}]),
